@@ -574,8 +574,12 @@ Plan gen(uint64_t seed, const std::string& tier) {
     } else if (op.kind == "gate") {
         qdb = r.chance(0.5) ? thr + r.real(0.05, 30) : thr - r.real(0.05, 40);
     } else {
-        const int c = int(r.below(5));
-        qdb = (c == 0) ? r.real(-90, thr - knee / 2 - 0.01) : (c == 1) ? thr + knee / 2 + r.real(0.01, 20) : (c == 2) ? thr + r.real(-knee / 2, knee / 2) : r.real(-60, 20);
+        const int c = int(r.below(6));
+        qdb = (c == 0)   ? r.real(-90, thr - knee / 2 - 0.01)
+              : (c == 1) ? thr + knee / 2 + r.real(0.01, 20)
+              : (c == 2) ? thr + r.real(-knee / 2, knee / 2)
+              : (c == 3) ? thr + knee / 2 + r.logu(1e-3, 0.5)   // barely above the knee: a gain reduction of a few millidecibels
+                         : r.real(-60, 20);
     }
     op.a[T_ESEED] = r.seed32();
     op.a[T_NEV] = double(r.range(0, 12));
